@@ -147,7 +147,7 @@ static void gen_c17(plan_t *p, rng_t *r)
 {
     static char a[8000], b[8000];
     static const int paints[] = { 0x00, 0xFF, 'a', 'Z', 0xA5, '1', '.' };
-    int nops = rng_range(r, 1, 20);
+    int nops = rng_range(r, 1, 20 * sim_tier_scale());
     plan_knob(p, "alloc.fill", rng_range(r, 0, 4));
     for (int i = 0; i < nops; i++) {
         size_t na, nb;
@@ -378,7 +378,7 @@ static void gen_c14(plan_t *p, rng_t *r)
 {
     static const char *protos[] = { "http", "ftp", "tcp", "udp", "ip", "dns", "odd", "unix", "mailto", "x9", "pop3", "file" };
     static const int paints[] = { 0x00, 0xFF, 0xA5, 0x5A, 'a' };
-    int nops = rng_range(r, 1, 20);
+    int nops = rng_range(r, 1, 20 * sim_tier_scale());
     plan_knob(p, "ns", (long)rng_below(r, 128));
     plan_knob(p, "alloc.fill", rng_range(r, 0, 4));
     plan_knob(p, "alloc.realloc", rng_range(r, 0, 2));
@@ -543,7 +543,7 @@ static void exec_c15(const plan_t *p)
 void protosim_gen_program(plan_t *p, rng_t *r);
 static void gen_c15(plan_t *p, rng_t *r)
 {
-    int nops = rng_range(r, 3, 80), untracked_prefix;
+    int nops = rng_range(r, 3, 80 * sim_tier_scale()), untracked_prefix;
 #ifdef SIM_DEBUG5
     if (rng_chance(r, 1, 4)) { protosim_gen_program(p, r); plan_knob(p, "scenario", 1); return; }
     plan_knob(p, "viamacro", rng_chance(r, 1, 3));
